@@ -1849,4 +1849,77 @@ theorem nodup_subset_length_le : ∀ (l u : List Nat), l.Nodup → (∀ x ∈ l,
     have : 0 < u.length := List.length_pos_of_mem hau
     simp only [List.length_cons]; omega
 
+/-! ### histories from the initial state -/
+
+theorem runL_init_q (v : Variant) (cfg : Config) (t : Nat) (known : List (Nat × Bool)) (evs : List Ev) :
+    (runL (Led.init v cfg t known) evs).q = runQ (withConfig v cfg t known) evs :=
+  runL_q _ _
+
+theorem runL_init_emitted (v : Variant) (cfg : Config) (t : Nat) (known : List (Nat × Bool)) (evs : List Ev) :
+    (runL (Led.init v cfg t known) evs).emitted = (requests (withConfig v cfg t known) evs).reverse := by
+  have := runL_emitted (Led.init v cfg t known) evs
+  rw [this]
+  exact List.append_nil _
+
+theorem nodup_of_reverse {l : List Nat} (h : l.reverse.Nodup) : l.Nodup := by
+  unfold List.Nodup at *
+  rw [List.pairwise_reverse] at h
+  exact h.imp (fun hab => Ne.symm hab)
+
+theorem runQ_init_const (v : Variant) (cfg : Config) (t : Nat) (known : List (Nat × Bool)) (evs : List Ev) :
+    (runQ (withConfig v cfg t known) evs).cfg = cfg ∧ (runQ (withConfig v cfg t known) evs).variant = v ∧
+      (runQ (withConfig v cfg t known) evs).target = t := by
+  have h := runL_const (Led.init v cfg t known) evs
+  rw [runL_init_q] at h
+  exact h
+
+/-- The invariant, for the state reached from the initial state. -/
+theorem linv_reach (v : Variant) (cfg : Config) (t : Nat) (known : List (Nat × Bool)) (evs : List Ev) :
+    LInv (runL (Led.init v cfg t known) evs) :=
+  linv_run (linv_init v cfg t known) evs
+
+/-! ### results -/
+
+theorem runQ_append (q : Q) (a b : List Ev) : runQ q (a ++ b) = runQ (runQ q a) b := by
+  induction a generalizing q with
+  | nil => rfl
+  | cons ev a ih => exact ih (stepQ q ev).1
+
+theorem mem_intoResult {q : Q} {k : Nat} (h : k ∈ intoResult q) :
+    ∃ e ∈ q.peers, e.state = .succeeded ∧ counts q.variant e = true ∧ e.key = k := by
+  unfold intoResult at h
+  have h' := List.mem_of_mem_take h
+  obtain ⟨e, he, hr⟩ := List.mem_filterMap.mp h'
+  unfold resultKey at hr
+  by_cases hc : (e.state.isSucceeded && counts q.variant e) = true
+  · rw [if_pos hc] at hr
+    cases hr
+    have hc' := Bool.and_eq_true_iff.mp hc
+    refine ⟨e, he, ?_, hc'.2, rfl⟩
+    cases hs : e.state <;> simp [hs, PState.isSucceeded] at hc' ⊢
+  · rw [if_neg hc] at hr; cases hr
+
+theorem intoResult_sorted {q : Q} (hs : Sorted q.peers) (hd : DistOk q.target q.peers) :
+    (intoResult q).Pairwise (fun a b => a ^^^ q.target < b ^^^ q.target) := by
+  unfold intoResult
+  apply List.Pairwise.sublist (List.take_sublist _ _)
+  have h1 : q.peers.Pairwise (fun a b => a.key ^^^ q.target < b.key ^^^ q.target) := by
+    unfold Sorted at hs
+    refine List.Pairwise.imp_of_mem ?_ hs
+    intro a b ha hb hab
+    rw [← hd a ha, ← hd b hb]; exact hab
+  refine List.Pairwise.filterMap _ ?_ h1
+  intro a a' haa b hb b' hb'
+  unfold resultKey at hb hb'
+  by_cases hc : (a.state.isSucceeded && counts q.variant a) = true
+  · rw [if_pos hc] at hb; cases hb
+    by_cases hc' : (a'.state.isSucceeded && counts q.variant a') = true
+    · rw [if_pos hc'] at hb'; cases hb'; exact haa
+    · rw [if_neg hc'] at hb'; cases hb'
+  · rw [if_neg hc] at hb; cases hb
+
+theorem intoResult_length (q : Q) : (intoResult q).length = min q.cfg.numResults (resCount q.variant q.peers) := by
+  unfold intoResult resCount
+  exact List.length_take
+
 end Discv5.Query
